@@ -120,14 +120,14 @@ def wf(m) -> bool:
 
 def wf_json(shape, cards, code) -> bool:
     m = c05.make(shape, cards, ctc_code=code, attrs=[(0, 'cost', 3)], abstract=[i % 2 == 0 for i in range(R.n_features(shape))])
-    return wf(JSONReader.parse_json(to_json(m)))
+    return wf(rt.json_transform(JSONReader, to_json(m)))
 
 
 def wf_glencoe(shape, cards, code) -> bool:
     m = c08.make(shape, cards, ctc_code=code)
     d = glencoe_to_json(m)
     rd = GlencoeReader('unused')
-    return wf(FeatureModel(rd._parse_tree(None, d['tree'], d['features']), rd._parse_constraints(d['constraints'], d['features'])))
+    return wf(rt.json_transform(GlencoeReader, d))
 
 
 def wf_fide(shape, cards, code) -> bool:
@@ -139,7 +139,7 @@ def wf_fide_ref(shape, cards, code) -> bool:
     n = R.n_features(shape)
     names = ['F%d' % i for i in range(n)]
     trees = [c09.c05_rename(t, names) for t in c09.fide_ctcs(n)[code % len(c09.fide_ctcs(n))]] if n >= 2 else []
-    doc = c09.fide_emit(shape, cards, names, [False] * n, {'mandatory_false': 1, 'graphics': 1, 'description': 1}, trees)
+    doc = c09.fide_emit(shape, cards, names, [False] * n, {'mandatory_false': 1, 'graphics': 1, 'description': 1, 'group_member_mandatory': 1}, trees)
     return wf(c09.fide_read(doc))
 
 
@@ -149,7 +149,7 @@ def wf_glencoe_ref(shape, cards, code) -> bool:
     trees = c09.gl_ctcs(n, code)
     d = c09.glencoe_emit(shape, cards, names, {'ids_differ': 1, 'reverse_children': 1}, trees)
     rd = GlencoeReader('unused')
-    return wf(FeatureModel(rd._parse_tree(None, d['tree'], d['features']), rd._parse_constraints(d['constraints'], d['features'])))
+    return wf(rt.json_transform(GlencoeReader, d))
 
 
 def wf_fama(shape, cards, oi) -> bool:
@@ -272,7 +272,7 @@ def tree_all_readers(tree):
         check('json', JSONReader.parse_json(to_json(m)))
         d = glencoe_to_json(m)
         rd = GlencoeReader('unused')
-        check('glencoe', FeatureModel(rd._parse_tree(None, d['tree'], d['features']), rd._parse_constraints(d['constraints'], d['features'])))
+        check('glencoe', rt.json_transform(GlencoeReader, d))
         if 'XOR' not in ops:
             check('featureide', c07.read_tree(_to_featureidexml(m)))
             from . import uvltok
